@@ -37,7 +37,7 @@ ASSUMPTIONS = [
 MINIMA = {"quick": {"fields_compared": 3000, "qcow2_snapshots_compared": 200, "locator_entries_compared": 60, "header_extensions_compared": 150},
           "thorough": {"fields_compared": 500000}}
 MECH = "metadata"
-FORMATS = ["qcow2", "qcow2", "qcow2-snap", "qcow2-snap", "vhdx", "vhdx-parent", "vmdk-desc", "vmdk-desc", "vmdk-embedded", "vhd", "vdi", "hds", "hdd-desc", "hdd-desc"]
+FORMATS = ["qcow2", "qcow2", "qcow2-snap", "qcow2-snap", "vhdx", "vhdx-parent", "vmdk-desc", "vmdk-desc", "vmdk-embedded", "vhd", "vdi", "hds", "hdd-desc", "hdd-desc", "hdd-opened"]
 
 
 def plan(tier: str, seed: int) -> list[dict]:
@@ -259,10 +259,12 @@ def _vhdx(rng, ctx, c, cnt, sample, res, parent=False):
         rng.shuffle(ents)
         loc = wvhdx.parent_locator(ents, layout=rng.choice(["interleaved", "keys-first", "values-first", "reversed", "shuffled", "padded"]), rng=rng)
     tail = rng.randrange(0, bs // ss) if rng.random() < 0.5 else 0
+    lg = bytes(rng.randrange(1, 256) for _ in range(16))  # a header may name an active log (image copied while attached)
     sf, layer, meta = wvhdx.build(rng, block_size=bs, sector_size=ss, nblocks=n, tail_cut_sectors=tail, states=[0] * n, tag=2, seqs=(s1, s2),
                                   stale="valid", has_parent=parent, locator=loc, disk_id=disk_id, physical_sector_size=pss,
                                   meta_item_order=rng.choice([None, "shuffle", "rev"]), item_gap=rng.choice([0, 8, 256]), checksums=False,
-                                  leave_alloc=rng.random() < 0.5)
+                                  leave_alloc=rng.random() < 0.5, meta_table_order=rng.choice([None, "shuffle", "rev"]),
+                                  log_guids=rng.choice([(None, None), (lg, None), (None, lg), (lg, lg)]))
     if parent:
         cp = d / "child.avhdx"
         sf.write_to(cp)
@@ -460,6 +462,52 @@ def _hds(rng, ctx, c, cnt, sample, res):
     c.eq("bat", list(v.bat), meta["bat"])
     c.eq("header.m_Sig", bytes(v.header.m_Sig), whds.SIG_V1 if ver == 1 else whds.SIG_V2)
     sample.update({"version": ver, "cluster_sectors": ms})
+
+
+def _hdd_meta(h):
+    dsc = h.descriptor
+    return {
+        "storages": [(s.start, s.end, [(str(im.guid), im.type, im.file) for im in s.images]) for s in dsc.storage_data.storages],
+        "shots": [(str(s.guid), str(s.parent)) for s in dsc.snapshots.shots],
+        "top": str(dsc.snapshots.top_guid),
+    }
+
+
+def _hdd_opened(rng, ctx, c, cnt, sample, res):
+    """The descriptor metadata of a disk whose streams have been opened (relocated absolute image paths, snapshot
+    chains): still what DiskDescriptor.xml stores."""
+    from vf import chains
+
+    if rng.random() < 0.5:
+        o = call(chains.hdd_abs, rng, ctx)
+        if not o.ok:
+            raise _OpenFailed(o)
+        op = o.value
+        stored = op.info["stored_file"]
+        m0 = _hdd_meta(op.hdd)
+        c.eq("images[0].file after open()", m0["storages"][0][2][0][2], stored)
+        guids = [None]
+        sample["relocation"] = op.info["variant"]
+    else:
+        o = call(chains.hdd_snapshots, rng, ctx, depth=rng.choice([1, 2, 3]), top_mode=rng.choice(["default", "explicit"]), nstorages=rng.choice([1, 2]))
+        if not o.ok:
+            raise _OpenFailed(o)
+        op = o.value
+        guids = [g for g, _ in op.levels]
+    from dissect.hypervisor.disk.hdd import HDD
+
+    fresh = _hdd_meta(_open(HDD, op.hdd.path))
+    c.eq("descriptor metadata after the first open()", _hdd_meta(op.hdd), fresh)
+    for rep in range(3):
+        st = call(op.hdd.open, rng.choice(guids))
+        if not st.ok:
+            raise _OpenFailed(st)
+        call(st.value.read, 4096)
+        m = _hdd_meta(op.hdd)
+        c.eq(f"storage list after open() #{rep + 2}", m["storages"], fresh["storages"])
+        c.eq(f"snapshot list after open() #{rep + 2}", m["shots"], fresh["shots"])
+        c.eq(f"top GUID after open() #{rep + 2}", m["top"], fresh["top"])
+    cnt["hdd_metadata_after_open_checks"] = 1
 
 
 def _hdd_desc(rng, ctx, c, cnt, sample, res):
